@@ -218,10 +218,35 @@ func genReprCase(r *rng, id string) *ValCase {
 	keywordsOf(doc, kws)
 	g.smallNums = kws["multipleOf"] > 0
 	var docs []Doc
-	for i := 0; i < 3; i++ {
-		docs = append(docs, g.instFor(doc, doc, 3))
+	if r.chance(1, 6) {
+		// uniqueItems on arrays of numbers that occur twice under other spellings / Go types,
+		// incl. integers beyond 2^53 and 2^63 and negative zero
+		doc = DObj{{"uniqueItems", DBool(true)}}
+		if r.chance(1, 2) {
+			doc = DObj{{"items", DObj{{"type", DStr("number")}}}, {"uniqueItems", DBool(true)}}
+		}
+		c.Doc = doc
+		g.smallNums = false
+		pairs := [][2]string{{"0", "-0"}, {"1", "1.0"}, {"9223372036854775808", "9.223372036854775808e18"}, {"18446744073709551615", "18446744073709551615"},
+			{"-0.0", "0"}, {"100", "1e2"}, {"9007199254740992", "9007199254740992.0"}, {"9223372036854775807", "9223372036854775807"}, {"-9223372036854775808", "-9223372036854775808.0"}}
+		for i := 0; i < 4; i++ {
+			pr := pick(r, pairs)
+			a := DArr{DNum(pick(r, numPool)), DNum(pr[0]), DStr("x"), DNum(pr[1])}
+			if r.chance(1, 2) {
+				a = DArr{DNum(pr[0]), DNum(pr[1])}
+			}
+			if r.chance(1, 3) {
+				a = DArr{DArr{DNum(pr[0])}, DArr{DNum(pr[1])}}
+			}
+			docs = append(docs, a)
+		}
+		docs = append(docs, DArr{DNum("1"), DNum("2")})
+	} else {
+		for i := 0; i < 3; i++ {
+			docs = append(docs, g.instFor(doc, doc, 3))
+		}
+		docs = append(docs, g.mutate(docs[0]), g.value(2))
 	}
-	docs = append(docs, g.mutate(docs[0]), g.value(2))
 	diff := 0
 	for _, d := range docs {
 		if g.smallNums && hasBigNumber(d) {
